@@ -1,6 +1,9 @@
 package main
 
-import "fmt"
+import (
+	"fmt"
+	"strings"
+)
 
 // generic whole-file case: setup, body of declarations, one or more renders
 func genFileCase(cx *CheckCtx, i int, tg func(r *Rng, pool *PathPool) *TreeGen, nDecl int, cfg FileCfg, renders int) *Case {
@@ -57,16 +60,18 @@ func registerChecks() {
 		Gen: func(cx *CheckCtx) []*Case {
 			var cs []*Case
 			n := cx.N(3000, 200000)
+			cfg := defaultFileCfg
+			cfg.wildCgo, cfg.cgoPct = true, 20
 			for i := 0; i < n; i++ {
 				r := cx.R
 				var c *Case
 				switch i % 4 {
 				case 0:
-					c = genFileCase(cx, i, validGen, 1+r.Intn(3), defaultFileCfg, 1)
+					c = genFileCase(cx, i, validGen, 1+r.Intn(3), cfg, 1)
 				case 1:
-					c = damage(genFileCase(cx, i, validGen, 1+r.Intn(3), defaultFileCfg, 1), r)
+					c = damage(genFileCase(cx, i, validGen, 1+r.Intn(3), cfg, 1), r)
 				default:
-					c = genFileCase(cx, i, wildGen, 1+r.Intn(3), defaultFileCfg, 1)
+					c = genFileCase(cx, i, wildGen, 1+r.Intn(3), cfg, 1)
 				}
 				cs = append(cs, withFrags(c, r))
 			}
@@ -102,6 +107,33 @@ func registerChecks() {
 			}
 			for i := 0; i < cx.N(300, 10000); i++ {
 				cs = append(cs, genTagCases(&CheckCtx{Prop: "C07t", Tier: "quick", Seed: cx.Seed, R: cx.R.Fork(), Stats: cx.Stats})[:1]...)
+			}
+			// hint MAPS (ImportNames ranges over the caller's Go map): several keys that are
+			// spellings of one path, each referenced in the body — whatever the code does with
+			// them must not depend on the iteration order
+			for i := 0; i < cx.N(150, 3000); i++ {
+				r := cx.R.Fork()
+				c := &Case{ID: fmt.Sprintf("C07-hintmap-%d-%d", cx.Seed, i)}
+				c.Ops = append(c.Ops, Op{Kind: OpFile, F: 0, Str: []string{"new", "", "p"}})
+				base := pick(r, []string{"a.com/d", "b.org/x/lib", "gopkg.in/yaml.v2", "net/http", "lib", "h0.com/d/v2"})
+				spell := []string{base, base + "/", base + "//", strings.ToUpper(base[:1]) + base[1:], base + "/.", "./" + base, strings.ToUpper(base)}
+				r.Shuffle(len(spell), func(a, b int) { spell[a], spell[b] = spell[b], spell[a] })
+				spell = spell[:2+r.Intn(3)]
+				var kv [][2]string
+				for k, sp := range spell {
+					kv = append(kv, [2]string{sp, fmt.Sprintf("n%d%s", k, genIdent(r))})
+				}
+				c.Ops = append(c.Ops, Op{Kind: OpHintNames, F: 0, KV: kv})
+				var args []Arg
+				refs := append([]string{base}, spell...)
+				for k, sp := range refs {
+					if r.Chance(75) {
+						args = append(args, st(Qual{Path: sp, Name: qName(k)}))
+					}
+				}
+				c.Ops = append(c.Ops, Op{Kind: OpFAdd, F: 0, Args: []Arg{st(kw("Var"), id("v"), op("="), &Grp{Api: "Index", Args: nil}, kw("Any"), &Grp{Api: "Values", Args: args})}})
+				c.Ops = append(c.Ops, Op{Kind: OpRender, F: 0})
+				cs = append(cs, c)
 			}
 			return cs
 		},
